@@ -16,6 +16,8 @@
 #include <xercesc/sax/SAXException.hpp>
 #include <xercesc/util/XMLException.hpp>
 
+#include <xalanc/PlatformSupport/FormatterListener.hpp>
+#include <xalanc/XPath/MutableNodeRefList.hpp>
 #include <xalanc/XPath/XObject.hpp>
 #include <xalanc/XPath/XPathEvaluator.hpp>
 #include <xalanc/XPath/XPath.hpp>
@@ -213,6 +215,122 @@ std::string cmdXpAll(const std::vector<std::string>& f)
     return o;
 }
 
+struct CharSink : public FormatterListener
+{
+    XalanDOMString text;
+    CharSink() : FormatterListener(OUTPUT_METHOD_NONE), text() {}
+    void charactersRaw(const XMLCh* const c, const size_type n) { text.append(c, n); }
+    void comment(const XMLCh* const) {}
+    void cdata(const XMLCh* const c, const size_type n) { text.append(c, n); }
+    void entityReference(const XMLCh* const) {}
+    void characters(const XMLCh* const c, const size_type n) { text.append(c, n); }
+    void endDocument() {}
+    void endElement(const XMLCh* const) {}
+    void ignorableWhitespace(const XMLCh* const, const size_type) {}
+    void processingInstruction(const XMLCh* const, const XMLCh* const) {}
+    void resetDocument() {}
+    void setDocumentLocator(const Locator* const) {}
+    void startDocument() {}
+    void startElement(const XMLCh* const, AttributeList&) {}
+};
+
+static bool sameNum(double a, double b)
+{
+    if (a != a || b != b) return a != a && b != b;
+    return memcmp(&a, &b, 8) == 0;
+}
+
+// xp6all <slot> <expr> [p=uri ...] -> per node of the document: "ok" or "e" (generic evaluation raised and so did every
+// overload) or a list of disagreements between the typed XPath::execute overloads and the generic result + conversion
+std::string cmdXp6All(const std::vector<std::string>& f)
+{
+    if (f.size() < 3) return "e\tbad request";
+    std::map<std::string, Doc*>::iterator it = g_docs.find(f[1]);
+    if (it == g_docs.end()) return "e\tno such slot";
+    Doc& d = *it->second;
+    MapResolver pr;
+    setNs(pr, f, 3);
+    MemoryManager& mm = XalanMemMgrs::getDefaultXercesMemMgr();
+    XPathEnvSupportDefault env(mm);
+    XObjectFactoryDefault xof(mm);
+    XPathExecutionContextDefault ec(env, d.support(), xof);
+    XPathConstructionContextDefault cc(mm);
+    XPathProcessorImpl proc(mm);
+    XPath xp(mm);
+    try { proc.initXPath(xp, cc, dom(f[2]), pr); }
+    catch (const XSLException& e) { return "ce\t" + esc(excText(e)); }
+    std::vector<std::pair<std::string, const XalanNode*> > all;
+    walkPaths(d.doc, "", all);
+    std::string o = "ok";
+    for (size_t i = 0; i < all.size(); ++i)
+    {
+        XalanNode* ctx = const_cast<XalanNode*>(all[i].second);
+        MutableNodeRefList ctxList(mm);
+        ctxList.addNode(ctx);
+        std::string r;
+        bool gErr = false;
+        XObjectPtr g;
+        try { g = xp.execute(ctx, pr, ctxList, ec); } catch (const XSLException&) { gErr = true; }
+        // 1. boolean
+        {
+            bool b = false, err = false;
+            try { xp.execute(ctx, pr, ctxList, ec, b); } catch (const XSLException&) { err = true; }
+            if (err != gErr) r += std::string("|bool:error-mismatch:") + (err ? "overload-throws" : "generic-throws");
+            else if (!gErr && b != g->boolean(ec)) r += std::string("|bool:") + (b ? "1" : "0");
+        }
+        // 2. number
+        {
+            double v = 0; bool err = false;
+            try { xp.execute(ctx, pr, ctxList, ec, v); } catch (const XSLException&) { err = true; }
+            if (err != gErr) r += std::string("|num:error-mismatch:") + (err ? "overload-throws" : "generic-throws");
+            else if (!gErr && !sameNum(v, g->num(ec))) r += "|num:" + hexDouble(v) + "!=" + hexDouble(g->num(ec));
+        }
+        // 3. string, into an empty and into a non-empty target (uniformly append)
+        {
+            XalanDOMString s1(mm), s2(mm); bool err = false;
+            s2 = dom("PRE");
+            try { xp.execute(ctx, pr, ctxList, ec, s1); xp.execute(ctx, pr, ctxList, ec, s2); } catch (const XSLException&) { err = true; }
+            if (err != gErr) r += std::string("|str:error-mismatch:") + (err ? "overload-throws" : "generic-throws");
+            else if (!gErr)
+            {
+                const XalanDOMString& gs = g->str(ec);
+                if (!(s1 == gs)) r += "|str:'" + toUtf8(s1) + "'!='" + toUtf8(gs) + "'";
+                XalanDOMString want(mm); want = dom("PRE"); want.append(gs);
+                if (!(s2 == want)) r += "|str-append:'" + toUtf8(s2) + "'";
+            }
+        }
+        // 4. character events
+        {
+            CharSink sink; bool err = false;
+            try { xp.execute(ctx, pr, ctxList, ec, sink, &FormatterListener::characters); } catch (const XSLException&) { err = true; }
+            if (err != gErr) r += std::string("|chars:error-mismatch:") + (err ? "overload-throws" : "generic-throws");
+            else if (!gErr && !(sink.text == g->str(ec))) r += "|chars:'" + toUtf8(sink.text) + "'";
+        }
+        // 5. node list (node-set expressions only; an error for the others)
+        {
+            MutableNodeRefList l(mm); bool err = false; XObjectPtr x;
+            try { x = xp.execute(ctx, pr, ctxList, ec, l); } catch (const XSLException&) { err = true; }
+            const bool isNs = !gErr && g->getType() == XObject::eTypeNodeSet;
+            if (isNs)
+            {
+                if (err) r += "|nodelist:overload-throws";
+                else
+                {
+                    const NodeRefListBase& got = x.null() ? (const NodeRefListBase&)l : x->nodeset();
+                    const NodeRefListBase& want = g->nodeset();
+                    bool same = got.getLength() == want.getLength();
+                    for (NodeRefListBase::size_type k = 0; same && k < got.getLength(); ++k) same = got.item(k) == want.item(k);
+                    if (!same) r += "|nodelist:" + joinPaths(got) + "!=" + joinPaths(want);
+                }
+            }
+            else if (!gErr && !err) r += "|nodelist:accepts-non-node-set";
+            else if (gErr && !err) r += "|nodelist:error-mismatch:generic-throws";
+        }
+        o += "\t" + (r.empty() ? std::string(gErr ? "e" : "ok") : r.substr(1));
+    }
+    return o;
+}
+
 std::string cmdMatch(const std::vector<std::string>& f)
 {
     if (f.size() < 3) return "e\tbad request";
@@ -356,6 +474,7 @@ int main()
                 else if (f[0] == "xp") reply = cmdXp(f);
                 else if (f[0] == "match") reply = cmdMatch(f);
                 else if (f[0] == "xpall") reply = cmdXpAll(f);
+                else if (f[0] == "xp6all") reply = cmdXp6All(f);
                 else if (f[0] == "tr") reply = cmdTr(f);
                 else if (f[0] == "ping") reply = "pong";
                 else reply = "e\tunknown command";
